@@ -1,6 +1,202 @@
-(* Property C20 - only statements closed by `exact`, each followed by Print Assumptions. *)
+(* Property C20 - only statements closed by `exact`, each followed by Print Assumptions, plus
+   non-vacuity Examples.
+
+   Clauses of the property statement  ->  theorems (all about the executable model ArgsModel.v,
+   which mirrors src/Process.cpp decision by decision; the model is tied to the code by the
+   correspondence check):
+
+   "Process::Arguments yields, for every argument vector, the option/argument sequence of the
+    POSIX getopt_long conventions - clustered short options, attached and detached option
+    values, long options with '=' or separate values, the '--' terminator, unknown and
+    incomplete options"
+        -> arguments_yield_getopt_sequence   (whole run = ArgsSpec.getopt_ref, every table, every vector)
+           arguments_read_refines            (each single read() = one step of the reference)
+           getopt_terminator                 (reference: after "--" everything is an argument)
+   "without reading outside the argument strings"
+        -> arguments_never_read_outside      (every read on every reachable cursor is Ok: all
+                                              peeks/pointer moves stay in [string, terminator])
+   termination of the  while(read())  loop
+        -> arguments_read_consumes, arguments_false_is_final, arguments_loop_terminates,
+           arguments_item_count_bounded
+   "the argument vector (after the documented quoting rules of the command-line form)"
+        -> splitter_refines_reference, splitter_total_on_all_bytes (the loop that used to hang),
+           splitter_roundtrip, reference_roundtrip
+   "receives exactly the executable, the argument vector and the environment it was given"
+        -> launch_argv_exact, launch_argv0_exact, launch_list_exact, launch_cmdline_exact,
+           launch_cmdline_total (pure preparation code: arrays handed to execvpe)
+   exec itself, join()/exit code, redirected streams up to end-of-file, stdin bytes intact
+        -> validated by correspondence only (helper child, see checks/C20.py level_note). *)
 From Coq Require Import ZArith List.
+From Coq Require String.
+Import String.StringSyntax.
 From Common Require Import Words.
-From Args Require Import ArgsSpec ArgsModel ArgsProofs.
+From Args Require Import ArgsSpec ArgsModel ArgsProofs ArgsExamples.
 Import ListNotations.
 Local Open Scope Z_scope.
+
+(* ---------------- A. Process::Arguments ---------------- *)
+
+Theorem arguments_yield_getopt_sequence : forall opts, wf_opts opts -> forall argv, wf_argv argv ->
+  read_all opts argv = Ok (getopt_ref opts argv).
+Proof. exact read_all_correct. Qed.
+Print Assumptions arguments_yield_getopt_sequence.
+
+Example arguments_yield_getopt_sequence_ex :
+  wf_opts ex_tbl /\ wf_argv ex_vec /\ read_all ex_tbl ex_vec = Ok ex_expected /\
+  getopt_ref ex_tbl ex_vec = ex_expected.
+Proof.
+  split; [apply wf_optsb_sound; vm_compute; reflexivity|].
+  split; [apply wf_argvb_sound; vm_compute; reflexivity|].
+  split; vm_compute; reflexivity.
+Qed.
+
+Theorem arguments_read_refines : forall opts, wf_opts opts -> forall c, Inv c -> step_ok opts c (read opts c).
+Proof. exact read_refines. Qed.
+Print Assumptions arguments_read_refines.
+
+Theorem reachable_cursors_invariant : forall opts argv c,
+  wf_opts opts -> wf_argv argv -> reachable opts argv c -> Inv c.
+Proof. exact reachable_inv. Qed.
+Print Assumptions reachable_cursors_invariant.
+
+Example reachable_cursors_invariant_ex : reachable ex_tbl ex_vec ex_cursor /\ c_arg ex_cursor <> [].
+Proof.
+  split; [|discriminate].
+  apply (reach_step ex_tbl ex_vec (init_cursor ex_vec) ex_cursor (Some (97, []))); [apply reach_init|].
+  vm_compute. reflexivity.
+Qed.
+
+Theorem arguments_never_read_outside : forall opts argv c,
+  wf_opts opts -> wf_argv argv -> reachable opts argv c -> exists c' o, read opts c = Ok (c', o).
+Proof. exact read_safe. Qed.
+Print Assumptions arguments_never_read_outside.
+
+Example arguments_never_read_outside_ex :
+  exists c', read ex_tbl ex_cursor = Ok (c', Some (97, [])).
+Proof. eexists. vm_compute. reflexivity. Qed.
+
+Theorem arguments_read_consumes : forall opts argv c c' ob,
+  wf_opts opts -> wf_argv argv -> reachable opts argv c ->
+  read opts c = Ok (c', Some ob) -> (cweight c' < cweight c)%nat.
+Proof. exact read_decreases. Qed.
+Print Assumptions arguments_read_consumes.
+
+Theorem arguments_false_is_final : forall opts argv c c',
+  wf_opts opts -> wf_argv argv -> reachable opts argv c ->
+  read opts c = Ok (c', None) -> exists c'', read opts c' = Ok (c'', None).
+Proof. exact read_false_stays. Qed.
+Print Assumptions arguments_false_is_final.
+
+Example arguments_false_is_final_ex :
+  exists c', read ex_tbl (init_cursor [B "--"]) = Ok (c', None) /\ cweight (init_cursor [B "--"]) = 3%nat.
+Proof. eexists. split; vm_compute; reflexivity. Qed.
+
+(* read() has returned false after at most  weight argv + 1  calls, and never left a string *)
+Theorem arguments_loop_terminates : forall opts argv,
+  wf_opts opts -> wf_argv argv -> read_all opts argv <> Fuel /\ read_all opts argv <> Oob.
+Proof. exact read_all_total. Qed.
+Print Assumptions arguments_loop_terminates.
+
+Theorem arguments_item_count_bounded : forall opts argv,
+  wf_opts opts -> wf_argv argv -> (length (getopt_ref opts argv) <= weight argv)%nat.
+Proof. exact getopt_ref_length. Qed.
+Print Assumptions arguments_item_count_bounded.
+
+Example arguments_item_count_bounded_ex :
+  length (getopt_ref ex_tbl ex_vec) = 20%nat /\ weight ex_vec = 95%nat.
+Proof. split; vm_compute; reflexivity. Qed.
+
+Theorem getopt_terminator : forall opts post,
+  getopt_ref opts ([ch_dash; ch_dash] :: post) = map (fun s => (0, s)) post.
+Proof. exact getopt_ref_terminator. Qed.
+Print Assumptions getopt_terminator.
+
+(* missing arguments and a lone '-' *)
+Example getopt_incomplete_ex :
+  read_all ex_tbl [B "-ab"] = Ok [(97, []); (58, B "-b")] /\
+  read_all ex_tbl [B "--bee"] = Ok [(58, B "--bee")] /\
+  read_all ex_tbl [B "-b"; B "--"] = Ok [(98, B "--")] /\
+  read_all ex_tbl [B "--="; B "--long=" ] = Ok [(63, B "--="); (63, B "--long=")].
+Proof. repeat split; vm_compute; reflexivity. Qed.
+
+(* ---------------- B. command-line splitter ---------------- *)
+
+Theorem splitter_refines_reference : forall s, nz s -> split_model s = Ok (split_ref s).
+Proof. exact split_model_correct. Qed.
+Print Assumptions splitter_refines_reference.
+
+Example splitter_refines_reference_ex :
+  nz ex_cmdline /\
+  split_model ex_cmdline = Ok ([B "prog"; B "a b"; B ""; B "x\y"; B "q""r\s"; B "tail\"]).
+Proof. split; [apply nzb_sound|]; vm_compute; reflexivity. Qed.
+
+(* fuel = length + 1 suffices on EVERY byte string; the result is never Oob *)
+Theorem splitter_total_on_all_bytes : forall s, exists ws, split_model s = Ok ws.
+Proof. exact split_model_total. Qed.
+Print Assumptions splitter_total_on_all_bytes.
+
+(* the input on which the unrepaired loop did not terminate; an unterminated quote; a NUL inside *)
+Example splitter_total_on_all_bytes_ex :
+  split_model (B """a\b") = Ok [B "a\b"] /\ split_model (B "x ""\") = Ok [B "x"; B "\"] /\
+  split_model [97; 0; 98] = Ok [[97]].
+Proof. repeat split; vm_compute; reflexivity. Qed.
+
+Theorem reference_roundtrip : forall ws, Forall quotable ws -> split_ref (join_words ws) = ws.
+Proof. exact split_ref_join. Qed.
+Print Assumptions reference_roundtrip.
+
+Theorem splitter_roundtrip : forall ws,
+  Forall nz ws -> Forall quotable ws -> split_model (join_words ws) = Ok ws.
+Proof. exact split_model_roundtrip. Qed.
+Print Assumptions splitter_roundtrip.
+
+Example splitter_roundtrip_ex :
+  split_model (join_words ex_words) = Ok ex_words /\ length ex_words = 6%nat /\
+  (* the excluded words: a trailing backslash would swallow the closing quote *)
+  split_model (join_words [B "a\"]) = Ok [B "a"""].
+Proof. repeat split; vm_compute; reflexivity. Qed.
+
+(* ---------------- C. what is handed to exec ---------------- *)
+
+Theorem launch_argv_exact : forall exe argv env,
+  launch_argv exe (length argv) (map Some argv) env = Ok (launch_ref_argv exe argv env).
+Proof. exact launch_argv_correct. Qed.
+Print Assumptions launch_argv_exact.
+
+Example launch_argv_exact_ex :
+  launch_argv (B "/bin/p") 3 (map Some [B "zero"; B "a b"; []]) ex_env =
+  Ok {| x_program := B "/bin/p"; x_args := [B "/bin/p"; B "a b"; []];
+        x_env := Some [B "HOME=/h"; B "K="] |}.
+Proof. vm_compute. reflexivity. Qed.
+
+Theorem launch_argv0_exact : forall exe argv env,
+  launch_argv exe (S (length argv)) (map Some argv ++ [None]) env = Ok (launch_ref_argv0 exe argv env).
+Proof. exact launch_argv0_correct. Qed.
+Print Assumptions launch_argv0_exact.
+
+Theorem launch_list_exact : forall exe args env,
+  launch_list exe args env = Ok (launch_ref_list exe args env).
+Proof. exact launch_list_correct. Qed.
+Print Assumptions launch_list_exact.
+
+Example launch_list_exact_ex :
+  launch_list (B "p") [B "zero"; B "k"] ex_env =
+  Ok {| x_program := B "p"; x_args := [B "p"; B "k"]; x_env := Some [B "HOME=/h"; B "K="] |} /\
+  launch_list (B "p") [] [] = Ok {| x_program := B "p"; x_args := [B "p"]; x_env := None |}.
+Proof. split; vm_compute; reflexivity. Qed.
+
+Theorem launch_cmdline_exact : forall cmd env,
+  nz cmd -> launch_cmdline cmd env = Ok (launch_ref_cmdline cmd env).
+Proof. exact launch_cmdline_correct. Qed.
+Print Assumptions launch_cmdline_exact.
+
+Theorem launch_cmdline_total : forall cmd env, exists x, launch_cmdline cmd env = Ok x.
+Proof. exact ArgsProofsLaunch.launch_cmdline_total. Qed.
+Print Assumptions launch_cmdline_total.
+
+Example launch_cmdline_exact_ex :
+  launch_cmdline ex_cmdline [] =
+  Ok {| x_program := B "prog"; x_args := [B "prog"; B "a b"; B ""; B "x\y"; B "q""r\s"; B "tail\"];
+        x_env := None |} /\
+  launch_cmdline [] [] = Ok {| x_program := []; x_args := [[]]; x_env := None |}.
+Proof. split; vm_compute; reflexivity. Qed.
